@@ -5,9 +5,9 @@ CONSTANTS
   MaxRead = 3
   KF_FastInvertSkipsStopLine = FALSE
   KF_ReaderByteCountIgnoresPartial = FALSE
-  MaxLines = 5
+  MaxLines = 4
   Bodies <- BodiesMX
-  CtxMax = 2
+  CtxMax = 1
   Terms = {"lf", "crlf"}
   Strats = {"reader", "slice"}
   Paths = {"slow", "fast", "cand"}
